@@ -505,7 +505,7 @@ func discoverOverlapCase(c *vlib.Cases, pf *profile.Factory, n, iterations int) 
 	c.Emit(map[string]any{"kind": "discover-overlap", "n": n, "iterations": iterations, "impl": map[string]any{"stuck": stuck, "last_listing_taken_up": taken}})
 }
 
-var namePool = []string{"llama3:8b", "llama3:70b", "phi4:latest", "Qwen2.5-Coder", "mistral", "a::b", "x*", "gemma2:9b",
+var namePool = []string{"llama3:8b", "llama3:70b", "phi4:latest", "phi4:latest ", " phi4:latest", "llama3:8b\t", "Qwen2.5-Coder", "mistral", "a::b", "x*", "gemma2:9b",
 	// names a backend is free to use: namespaces, hub prefixes, non-ASCII letters whose case mappings change length
 	"hf.co/unsloth/Qwen3-32B-GGUF", "ȺȺȺ/m", "hf.co/ȺȾȺȾ/q", "İstanbul/model:İ", "模型/七", "ǅ/ǆ", "ﬁne/ﬂ", "a/b/c/d", "/", "//x", "org/", ":tag", "e\u0301/e\u0301"}
 
@@ -777,6 +777,9 @@ func main() {
 	}
 	discoverOverlapCase(c, pf, 4, map[bool]int{false: 150, true: 1500}[thorough])
 	c.Count("discover-overlap")
+	// a model id with a leading or trailing blank (valid JSON, seen from hand-edited model lists): a different name
+	discoverCase(c, pf, "openai", []round{{"good", []string{"phi-4", "x"}}, {"good", []string{"phi-4 ", "x"}}, {"good", []string{" phi-4"}}, {"emptylist", []string{}}, {"good", []string{"phi-4"}}, {"good", []string{"phi-4 ", "phi-4"}}, {"good", []string{"phi-4 "}}})
+	discoverCase(c, pf, "ollama", []round{{"good", []string{"phi-4"}}, {"good", []string{" phi-4"}}, {"good", []string{"y"}}})
 	discoverCase(c, pf, "openai", []round{{"good", []string{"a", "b"}}, {"garbage", nil}, {"truncated", []string{"c"}}, {"http500", nil}, {"emptylist", []string{}}, {"good", []string{"c"}}})
 	discoverCase(c, pf, "ollama", []round{{"good", []string{"x", "y"}}, {"nameless", []string{"", "z"}}, {"dup", []string{"z", "z", "w"}}, {"wrongtype", nil}, {"emptybody", nil}})
 	discoverCase(c, pf, "openai", []round{{"good", []string{"a"}}, {"oversized", []string{"big"}}, {"good", []string{"b"}}})
